@@ -63,4 +63,6 @@ def configs(tier):
 def run(tier, seed, only=None):
     cs = filt(configs(tier), only)
     META['bounds'] = {'dims': '1..3', 'depth': '<= 6 (1-D), <= 5 (2-D), <= 3 (3-D)', 'alpha/beta': 'the listed pairs', 'transforms': 'none and one affine box'}
-    return runner.run_property('C02', cs, tier, seed, META)
+    ks = [] if only else kmeta(tier)
+    META.setdefault('functions_encoded', []).append('OneDimensionalMeta::{getNumPoints, getIExact, getQExact} for all 35 global rules via ir2c + CBMC (table consistency, no signed overflow up to the level bound)')
+    return runner.run_property('C02', cs, tier, seed, META, ks)
